@@ -22,6 +22,9 @@ pub struct Call {
     /// server rows: > 0 = a BulkSearch stream of that many requests (every message costs one token), 0 = one unary Query
     #[serde(default)]
     pub stream: u32,
+    /// direct rows: before this call, that many tenants nobody has seen before make one call each (rate 1/s)
+    #[serde(default)]
+    pub crowd: u32,
 }
 
 #[derive(Clone, Debug, PartialEq, Serialize, Deserialize)]
@@ -76,11 +79,21 @@ pub fn gen_plan(seed: u64, run: u64, tier: &str) -> Plan {
                 3 => *rng.pick(&[0u64, 0, 0, 100_000, 10_000_000]),
                 _ => rng.below(2 * period + 1),
             };
-            calls.push(Call { gap_ns: gap, tenant, stream: 0 });
+            calls.push(Call { gap_ns: gap, tenant, stream: 0, crowd: 0 });
         }
         threads.push(calls);
     }
     let env_seed = rng.next();
+    // a crowd of first-contact tenants in some direct programs: the limiter then tracks hundreds or thousands of
+    // buckets while the tenants under observation carry on
+    if prog % 5 != 4 && prog % 16 == 3 {
+        let mut crng = Rng::for_run(seed, "C19c", prog);
+        for _ in 0..crng.range(1, 2) {
+            let t = crng.below(threads.len() as u64) as usize;
+            let i = crng.below(threads[t].len() as u64) as usize;
+            threads[t][i].crowd = *crng.pick(&[60u32, 700, 4200, 5000]);
+        }
+    }
     let mut srng = Rng::for_run(seed, "C19s", run);
     // every fifth program goes through the in-process server (fewer calls: an RPC costs more than a bucket call)
     let via_server = prog % 5 == 4;
@@ -171,8 +184,17 @@ pub fn execute(plan: &Plan) -> Exec {
             let hist = Arc::clone(&hist);
             bodies.push(Box::new(move || {
                 let rt = srv.as_ref().map(|_| crate::rpc::paused_runtime());
-                for c in &calls {
+                for (ci, c) in calls.iter().enumerate() {
                     simlibc::clock_advance_ns(c.gap_ns);
+                    if c.crowd > 0 && srv.is_none() {
+                        for k in 0..c.crowd {
+                            let n = format!("crowd_{}_{}_{}", t, ci, k);
+                            let tb = simlibc::clock_now_ns();
+                            let admitted = lim.check_limit(&n, 1);
+                            let ta = simlibc::clock_now_ns();
+                            hist.lock().unwrap().push(Rec { thread: t, tenant: usize::MAX, tb, ta, admitted, avail_before: None, avail_after: None });
+                        }
+                    }
                     let name = format!("tenant_{}", c.tenant);
                     let avail = |n: &str| match &srv {
                         Some(s) => s.0.rate_tokens(n),
@@ -216,7 +238,7 @@ pub fn execute(plan: &Plan) -> Exec {
                 }
             }));
         }
-        let result = sim::run(RunConfig { seed: p.sched.seed, strategy: p.sched.strategy(), max_decisions: 50_000, yield_on_release: p.sched.yield_on_release, record_sites: false }, bodies);
+        let result = sim::run(RunConfig { seed: p.sched.seed, strategy: p.sched.strategy(), max_decisions: if p.threads.iter().flatten().any(|c| c.crowd > 0) { 2_000_000 } else { 50_000 }, yield_on_release: p.sched.yield_on_release, record_sites: false }, bodies);
         ex.trace_hash = result.trace_hash;
         ex.choices = result.choices.clone();
         if result.deadlock.is_some() || result.step_cap_hit {
@@ -264,7 +286,7 @@ pub fn execute(plan: &Plan) -> Exec {
         // ---- clauses 3 + 4 (single caller thread: exact attribution is possible)
         // (runs with BulkSearch streams are judged by the window bounds only: a stream that is cut off has consumed
         // tokens for requests that were never answered, which the per-call accounting below cannot attribute)
-        if single && !p.threads.iter().flatten().any(|c| c.stream > 0) {
+        if single && !p.threads.iter().flatten().any(|c| c.stream > 0 || c.crowd > 0) {
             let eps = 1e-6;
             // reference LOWER bounds on the tokens of each bucket
             let mut lt: Vec<f64> = p.rates.iter().map(|r| *r as f64).collect();
